@@ -24,7 +24,8 @@ def new_interp():
     import z3 as _z3
     def nonneg(e):
         sv = _z3.Solver(); sv.set("timeout", 300); sv.add(*[p for p in I.pc if not _z3.is_quantifier(p)]); sv.add(e < 0)
-        return sv.check() == _z3.unsat
+        from .smt import guarded_check
+        return guarded_check(sv, 300) == _z3.unsat
     _A.NONNEG_ORACLE[0] = nonneg
     return I
 
